@@ -1625,6 +1625,16 @@ class ClassicChannel(utils.EventEmitter):
 
 
 # -----------------------------------------------------------------------------
+def _credit_based_parameters_acceptable(mtu: int, mps: int) -> bool:
+    return (
+        mtu >= L2CAP_LE_CREDIT_BASED_CONNECTION_MIN_MTU
+        and L2CAP_LE_CREDIT_BASED_CONNECTION_MIN_MPS
+        <= mps
+        <= L2CAP_LE_CREDIT_BASED_CONNECTION_MAX_MPS
+    )
+
+
+# -----------------------------------------------------------------------------
 class LeCreditBasedChannel(utils.EventEmitter):
     """
     LE Credit-based Connection Oriented Channel
@@ -1863,8 +1873,24 @@ class LeCreditBasedChannel(utils.EventEmitter):
             )
             return
 
+        result = response.result
         if (
-            response.result
+            result
+            == L2CAP_LE_Credit_Based_Connection_Response.Result.CONNECTION_SUCCESSFUL
+            and not _credit_based_parameters_acceptable(response.mtu, response.mps)
+        ):
+            # The peer accepted, but with an MTU or MPS below the minimum (an MPS of 0
+            # would make every credit be spent on a PDU that carries nothing): the
+            # connection is treated as refused.
+            logger.warning(
+                f'unacceptable parameters: mtu={response.mtu}, mps={response.mps}'
+            )
+            result = (
+                L2CAP_LE_Credit_Based_Connection_Response.Result.CONNECTION_REFUSED_UNACCEPTABLE_PARAMETERS
+            )
+
+        if (
+            result
             == L2CAP_LE_Credit_Based_Connection_Response.Result.CONNECTION_SUCCESSFUL
         ):
             self.destination_cid = response.destination_cid
@@ -1877,10 +1903,8 @@ class LeCreditBasedChannel(utils.EventEmitter):
         else:
             self.connection_result.set_exception(
                 L2capError(
-                    response.result,
-                    L2CAP_LE_Credit_Based_Connection_Response.Result(
-                        response.result
-                    ).name,
+                    result,
+                    L2CAP_LE_Credit_Based_Connection_Response.Result(result).name,
                 )
             )
             self._change_state(self.State.CONNECTION_ERROR)
@@ -2990,6 +3014,20 @@ class ChannelManager:
             return
 
         connection_result, channels = pending_connection
+
+        # A successful response with an MTU or MPS below the minimum is treated as a
+        # refusal (see LeCreditBasedChannel.on_connection_response)
+        if (
+            response.result
+            == L2CAP_Credit_Based_Connection_Response.Result.ALL_CONNECTIONS_SUCCESSFUL
+            and not _credit_based_parameters_acceptable(response.mtu, response.mps)
+        ):
+            logger.warning(
+                f'invalid parameters: mtu={response.mtu}, mps={response.mps}'
+            )
+            response.result = (
+                L2CAP_Credit_Based_Connection_Response.Result.ALL_CONNECTIONS_REFUSED_INVALID_PARAMETERS
+            )
 
         # Process the response
         for channel, destination_cid in zip(channels, response.destination_cid):
